@@ -85,6 +85,12 @@ CORR = [rule({"sel": {"f1": "a"}}, name="r1", title="r1"), rule({"sel": {"f2": "
         {"title": "c1", "name": "c1", "correlation": {"type": "temporal", "rules": ["r1", "r2"], "timespan": "5m", "group-by": ["user", "host"], "aliases": {"user": {"r1": "u1", "r2": "u2"}}}},
         {"title": "c2", "correlation": {"type": "event_count", "rules": ["c1"], "timespan": "1h", "group-by": ["host"], "condition": {"gte": 3}}}]
 rec("correlation", lambda: conv(P_MAP, CORR, V.K(correlation={"typing": True})))
+# referenced rules and the correlation rule each carry a fields list: the field list of the query is their ordered union minus group-by
+CORRFLD = [rule({"sel": {"f1": "a"}}, name="r1", title="r1", fields=["fa", "fb", "user", "fq"]), rule({"sel": {"f2": "b"}}, name="r2", title="r2", fields=["fb", "fc"]),
+           {"title": "cf1", "name": "cf1", "fields": ["zz", "fa", "yy", "xx", "ww", "host", "vv", "uu"],
+            "correlation": {"type": "event_count", "rules": ["r1", "r2"], "timespan": "5m", "group-by": ["user", "host"], "condition": {"gte": 2}}},
+           {"title": "cf2", "fields": ["k3", "k1", "k2"], "correlation": {"type": "temporal", "rules": ["r1", "r2"], "timespan": "5m", "group-by": ["fb"]}}]
+rec("correlation_fields", lambda: conv(None, CORRFLD, V.K(correlation={"typing": True})))
 XCORR = [rule({"sel": {"f1": "a"}}, name="ra", title="ra"), rule({"sel": {"f2": "b"}}, name="rb", title="rb"), rule({"sel": {"f3": "c"}}, name="rc", title="rc"),
          rule({"sel": {"f4": "d"}}, name="rd", title="rd"),
          {"title": "x1", "correlation": {"type": "temporal", "timespan": "5m", "group-by": ["user"], "condition": "(ra and rb) or (ra and rc) or (rd and rb)"}},
